@@ -1,1 +1,357 @@
-/-! # C24 — property theorems (stub: not built yet) -/
+import PymocaVerif.Lemmas.PyPrint
+/-!
+# C24 — the SymPy backend emits code with the flat model's meaning
+
+Property theorems only (helper lemmas: `Lemmas/PyGrammar.lean`, `Lemmas/PyPrint.lean`).
+Model: `Model/PyGrammar.lean` (Python expression grammar, printers `prCur` = tree as committed,
+`prFix` = with proposed fix C24-1) and `Model/PyPrint.lean` (mangling, classification, evaluator).
+All statements are for arbitrary expressions / symbol lists / builtin lists — no size bound.
+-/
+namespace PymocaVerif.PyPrint
+open PymocaVerif.PyGrammar
+
+private def nm (s : String) : Name := s.toList
+private def v (s : String) : E := E.atom (Atom.name (nm s))
+
+/-! ## precedence: the printed equation parses back to the flat equation -/
+
+/-- With the parenthesising printer (fix C24-1) the text of every element of `self.eqs`, read by
+    the Python grammar, is exactly lhs − rhs of the flat equation (with mangled names): no
+    operator is regrouped, whatever the nesting. -/
+theorem py_parse_print (B : List Name) (l r : E) :
+    pyParse (eqToks Variant.fix B l r) = some (eqTree (toPy B l) (toPy B r)) :=
+  parse_printed pyTbl pyTbl_wf
+    (printed_prEq ((printed_prFix _).1 1 (Nat.le_refl _)) ((printed_prFix _).1 0 (Nat.zero_le _)))
+
+example : pyParse (eqToks Variant.fix [] (v "y")
+    (E.bin 3 (E.bin 2 (E.pre 1 (E.bin 1 (v "x") (v "u"))) (v "p")) (E.bin 0 (v "c") (E.atom (Atom.num (nm "1"))))))
+    = some (eqTree (v "y")
+        (E.bin 3 (E.bin 2 (E.pre 1 (E.bin 1 (v "x") (v "u"))) (v "p")) (E.bin 0 (v "c") (E.atom (Atom.num (nm "1")))))) := by
+  decide +kernel
+
+/-- … and it evaluates like the flat equation: for every algebra of values and every Modelica
+    environment, the parsed Python text evaluated in the induced Python environment gives the
+    value of lhs − rhs, provided the mangling is injective on the variables in use. -/
+theorem py_parse_print_meaning {α : Type} (A : Alg α) (B : List Name) (vars : List Name) (l r : E)
+    (hl : ∀ n ∈ names l, n ∈ vars) (hr : ∀ n ∈ names r, n ∈ vars)
+    (hinj : ∀ a ∈ vars, ∀ b ∈ vars, mangleRef B a = mangleRef B b → a = b) (ρ : Env α) :
+    ∃ e', pyParse (eqToks Variant.fix B l r) = some e' ∧
+      eval A (pull (mangleRef B) vars ρ) e' = eval A ρ (eqTree l r) := by
+  refine ⟨_, py_parse_print B l r, ?_⟩
+  have : eqTree (toPy B l) (toPy B r) = rename (mangleRef B) (eqTree l r) := by
+    simp [eqTree, toPy, rename]
+  rw [this]
+  apply eval_rename
+  intro n hn
+  have hmem : n ∈ vars := by
+    simp only [eqTree, names, List.mem_append] at hn
+    rcases hn with h | h
+    · exact hl n h
+    · exact hr n h
+  exact pull_var ρ hmem hinj
+
+example : (∀ a ∈ [nm "x", nm "a.b"], ∀ b ∈ [nm "x", nm "a.b"],
+    mangleRef [] a = mangleRef [] b → a = b) := by decide +kernel
+
+/-- The printer as committed pastes operands without parentheses.  It is right exactly on the
+    expressions in natural precedence form (`NoParen`: every operand already binds at least as
+    tightly as its context).  PARTIAL: for the other expressions the statement is false, see
+    `cur_printer_regroups`. -/
+theorem py_parse_print_cur_partial (B : List Name) (l r : E)
+    (hl : NoParen pyTbl 1 l) (hr : NoParen pyTbl 0 r) :
+    pyParse (eqToks Variant.cur B l r) = some (eqTree (toPy B l) (toPy B r)) :=
+  parse_printed pyTbl pyTbl_wf
+    (printed_prEq (printed_prCur pyTbl _ 1 ((noParen_rename pyTbl _ l 1).mpr hl))
+      (printed_prCur pyTbl _ 0 ((noParen_rename pyTbl _ r 0).mpr hr)))
+
+example : NoParen pyTbl 1 (E.der (v "x")) ∧
+    NoParen pyTbl 0 (E.bin 1 (E.bin 2 (E.pre 1 (v "x")) (E.bin 4 (v "p") (E.pre 1 (v "c")))) (E.call (nm "sin") (v "time"))) := by
+  simp [NoParen, pyTbl, v]
+
+/-- Counterexample for the printer as committed: `y = (a - b) * c` is written `y - (a - b * c)`,
+    which Python reads as `y - (a - (b * c))`; at a = 1, b = 2, c = 3, y = 0 the values differ. -/
+theorem cur_printer_regroups :
+    ∃ (l r e' : E) (ρ : Env Int),
+      pyParse (eqToks Variant.cur [] l r) = some e' ∧
+      eval intAlg (pull (mangleRef []) (names l ++ names r) ρ) e' ≠ eval intAlg ρ (eqTree l r) := by
+  refine ⟨v "y", E.bin 2 (E.bin 1 (v "a") (v "b")) (v "c"),
+    eqTree (v "y") (E.bin 1 (v "a") (E.bin 2 (v "b") (v "c"))),
+    ⟨fun n => if n = nm "a" then some 1 else if n = nm "b" then some 2 else if n = nm "c" then some 3 else some 0,
+     fun _ => none⟩, ?_, ?_⟩
+  · decide +kernel
+  · decide +kernel
+
+/-! ## names -/
+
+/-- Distinct flat names get distinct Python identifiers when both are clean (no `__`, no `_.`)
+    and neither mangled name is a member of the builtin list followed by underscores that equals
+    the other.  Holds for every builtin list. -/
+theorem mangle_injective_on (B : List Name) (a b : Name) (ha : Clean a) (hb : Clean b)
+    (h1 : ¬ StemOf B (replDots a) (replDots b)) (h2 : ¬ StemOf B (replDots b) (replDots a))
+    (h : mangleRef B a = mangleRef B b) : a = b := by
+  have hs := mangleRef_eq_cases h
+  rcases avoid_eq_cases hs with h | h | h
+  · exact replDots_injective ha hb h
+  · exact absurd h h1
+  · exact absurd h h2
+
+example : Clean (nm "body.v_x") ∧ Clean (nm "copy") ∧
+    ¬ StemOf [nm "copy"] (replDots (nm "body.v_x")) (replDots (nm "copy")) := by
+  refine ⟨(cleanB_iff _).mp (by decide), (cleanB_iff _).mp (by decide), ?_⟩
+  intro h
+  have := h.1
+  revert this
+  decide
+
+/-- The same for declared symbols (`exitSymbol`). -/
+theorem mangle_sym_injective_on (B : List Name) (a b : Name) (ha : Clean a) (hb : Clean b)
+    (h1 : ¬ StemOf B (replDots a) (replDots b)) (h2 : ¬ StemOf B (replDots b) (replDots a))
+    (h : mangleSym B a = mangleSym B b) : a = b := by
+  rcases avoid_eq_cases h with h | h | h
+  · exact replDots_injective ha hb h
+  · exact absurd h h1
+  · exact absurd h h2
+
+example : mangleSym [nm "copy"] (nm "copy") = nm "copy_" := by decide +kernel
+
+/-- The side condition `Clean` is needed: a dotted name and the same name written with `__`
+    collide, for every builtin list and every prefix/suffix. -/
+theorem mangle_collision_dotted (B : List Name) (x y : Name) :
+    mangleSym B (x ++ '.' :: y) = mangleSym B (x ++ '_' :: '_' :: y) ∧
+    x ++ '.' :: y ≠ x ++ '_' :: '_' :: y := by
+  have happ : ∀ a b : Name, replDots (a ++ b) = replDots a ++ replDots b := by
+    intro a b
+    induction a with
+    | nil => rfl
+    | cons c a ih => by_cases hc : c = '.' <;> simp [replDots, hc, ih]
+  refine ⟨?_, ?_⟩
+  · simp [mangleSym, happ, replDots]
+  · intro h
+    have := List.append_cancel_left h
+    simp at this
+
+example : mangleSym [] (nm "a.b") = mangleSym [] (nm "a__b") :=
+  (mangle_collision_dotted [] (nm "a") (nm "b")).1
+
+/-- … and so do `a_.b` and `a._b` (an underscore in front of the dot). -/
+theorem mangle_collision_underscore_dot (B : List Name) :
+    mangleSym B (nm "a_.b") = mangleSym B (nm "a._b") ∧ nm "a_.b" ≠ nm "a._b" := by
+  refine ⟨?_, by decide⟩
+  have : replDots (nm "a_.b") = replDots (nm "a._b") := by decide
+  simp [mangleSym, this]
+
+/-- The side condition on the builtin list is needed: a member of the list and the same name
+    followed by an underscore collide. -/
+theorem mangle_collision_builtin (B : List Name) (n : Name) (hdot : '.' ∉ n) (hn : n ∈ B) :
+    mangleSym B n = mangleSym B (n ++ ['_']) ∧ n ≠ n ++ ['_'] := by
+  have hrep : ∀ m : Name, '.' ∉ m → replDots m = m := by
+    intro m
+    induction m with
+    | nil => intro _; rfl
+    | cons c m ih =>
+      intro h
+      have hc : c ≠ '.' := fun hc => h (by simp [hc])
+      have hm : '.' ∉ m := fun hm => h (by simp [hm])
+      simp [replDots, hc, ih hm]
+  have hfuel : ∀ (f : Nat) (m : Name), maxLen B < m.length + f →
+      avoidGo B f m = avoidGo B (f + 1) m := by
+    intro f
+    induction f with
+    | zero =>
+      intro m hm
+      have : m ∉ B := fun hmem => by have := length_le_maxLen hmem; omega
+      simp [avoidGo, this]
+    | succ f ih =>
+      intro m hm
+      by_cases hmem : m ∈ B
+      · have := ih (m ++ ['_']) (by simp only [List.length_append, List.length_singleton]; omega)
+        simp only [avoidGo, hmem, if_true] at this ⊢
+        exact this
+      · simp [avoidGo, hmem]
+  refine ⟨?_, ?_⟩
+  · have hdot' : '.' ∉ n ++ ['_'] := by
+      simp only [List.mem_append, List.mem_singleton, not_or]
+      exact ⟨hdot, by decide⟩
+    simp only [mangleSym, hrep n hdot, hrep _ hdot', avoid]
+    have h1 : avoidGo B (maxLen B + 1) n = avoidGo B (maxLen B) (n ++ ['_']) := by
+      simp [avoidGo, hn]
+    rw [h1]
+    exact hfuel (maxLen B) (n ++ ['_']) (by simp only [List.length_append, List.length_singleton]; omega)
+  · intro h
+    have := congrArg List.length h
+    simp at this
+
+example : mangleSym [nm "copy"] (nm "copy") = mangleSym [nm "copy"] (nm "copy_") :=
+  (mangle_collision_builtin [nm "copy"] (nm "copy") (by decide) (by decide)).1
+
+/-- The avoidance loop terminates outside the builtin list, for every list and name. -/
+theorem mangle_avoids_builtins (B : List Name) (n : Name) : mangleSym B n ∉ B :=
+  avoid_not_mem B (replDots n)
+
+example : mangleSym [nm "pop", nm "pop_"] (nm "pop") = nm "pop__" := by decide +kernel
+
+/-- The display name handed to sympy (`|replace('__', '.')`) is the Modelica name itself for a
+    clean name that does not hit the builtin list. -/
+theorem shown_name_is_modelica_name (B : List Name) (n : Name) (hc : Clean n)
+    (hB : replDots n ∉ B) : unrepl (mangleSym B n) = n := by
+  simp only [mangleSym, avoid_of_not_mem hB]
+  exact unrepl_replDots n hc
+
+example : unrepl (mangleSym [nm "copy"] (nm "body.v_x")) = nm "body.v_x" := by decide +kernel
+
+/-! ## classification -/
+
+/-- The state / constant / parameter / input / output lists are exactly the symbols carrying that
+    prefix, in declaration order, for every flat symbol list without repeated prefixes. -/
+theorem classification_matches (syms : List Sym) (h : ∀ s ∈ syms, s.prefixes.Nodup) :
+    ((classify syms).x = specX syms ∧ (classify syms).c = specC syms ∧
+     (classify syms).p = specP syms ∧ (classify syms).u = specU syms ∧
+     (classify syms).y = specY syms) ∧
+    ((classifyFix syms).x = specX syms ∧ (classifyFix syms).c = specC syms ∧
+     (classifyFix syms).p = specP syms ∧ (classifyFix syms).u = specU syms ∧
+     (classifyFix syms).y = specY syms) := by
+  simp only [classify, classifyFix, specX, specC, specP, specU, specY, pick_eq_filter h, and_self]
+
+example : (classify [⟨nm "x", ["output", "state"]⟩, ⟨nm "p", ["parameter"]⟩, ⟨nm "w", []⟩]).x
+    = [⟨nm "x", ["output", "state"]⟩] := by decide +kernel
+
+/-- The variable list is exactly the set of symbols that are neither state nor constant nor
+    parameter nor input (plain variables and outputs that are not states), for regular symbols with
+    distinct names. -/
+theorem variables_match (syms : List Sym) (hreg : ∀ s ∈ syms, Regular s)
+    (hnames : (syms.map (·.name)).Nodup) (s : Sym) :
+    s ∈ (classify syms).v ↔ s ∈ syms ∧ isVar s = true := by
+  have hnd : ∀ s ∈ syms, s.prefixes.Nodup := fun s hs => (hreg s hs).1
+  have hinj : ∀ (l : List Sym), (l.map (·.name)).Nodup → ∀ a ∈ l, ∀ b ∈ l, a.name = b.name → a = b := by
+    intro l
+    induction l with
+    | nil => intro _ a ha; simp at ha
+    | cons c l ih =>
+      intro hn a ha b hb hab
+      have hn' := List.nodup_cons.mp hn
+      rcases List.mem_cons.mp ha with ha1 | ha1
+      · rcases List.mem_cons.mp hb with hb1 | hb1
+        · rw [ha1, hb1]
+        · subst ha1
+          exact absurd (show a.name ∈ l.map (·.name) from List.mem_map.mpr ⟨b, hb1, hab.symm⟩) hn'.1
+      · rcases List.mem_cons.mp hb with hb1 | hb1
+        · subst hb1
+          exact absurd (show b.name ∈ l.map (·.name) from List.mem_map.mpr ⟨a, ha1, hab⟩) hn'.1
+        · exact ih hn'.2 a ha1 b hb1 hab
+  simp only [classify, pick_eq_filter hnd, List.mem_append, List.mem_filter, List.any_filter,
+    Bool.not_eq_true']
+  constructor
+  · rintro (⟨hs, hemp⟩ | ⟨⟨hs, hout⟩, hnot⟩)
+    · refine ⟨hs, ?_⟩
+      have : s.prefixes = [] := by simpa using hemp
+      simp [isVar, Sym.has, this]
+    · refine ⟨hs, ?_⟩
+      have hst : s.has "state" = false := by
+        cases hh : s.has "state" with
+        | false => rfl
+        | true =>
+          have : (syms.any fun t => t.has "state" && t.name == s.name) = true :=
+            List.any_eq_true.mpr ⟨s, hs, by simp [hh]⟩
+          rw [this] at hnot
+          exact absurd hnot (by decide)
+      have := (hreg s hs).2.2 hout
+      simp [isVar, hst, this.1, this.2.1, this.2.2]
+  · rintro ⟨hs, hv⟩
+    simp only [isVar, Bool.not_eq_true', Bool.or_eq_false_iff] at hv
+    obtain ⟨⟨⟨h1, h2⟩, h3⟩, h4⟩ := hv
+    by_cases hemp : s.prefixes = []
+    · left; exact ⟨hs, by simp [hemp]⟩
+    · right
+      obtain ⟨k, hk⟩ := List.exists_mem_of_ne_nil _ hemp
+      have hk5 := (hreg s hs).2.1 k hk
+      have hkb : ∀ k', k = k' → s.has k' = true := by
+        intro k' hk'; subst hk'; simpa [Sym.has] using hk
+      have hout : s.has "output" = true := by
+        rcases hk5 with h | h | h | h | h
+        · rw [hkb _ h] at h1; exact absurd h1 (by decide)
+        · rw [hkb _ h] at h2; exact absurd h2 (by decide)
+        · rw [hkb _ h] at h3; exact absurd h3 (by decide)
+        · rw [hkb _ h] at h4; exact absurd h4 (by decide)
+        · exact hkb _ h
+      refine ⟨⟨hs, hout⟩, ?_⟩
+      cases hany : (syms.any fun t => t.has "state" && t.name == s.name) with
+      | false => rfl
+      | true =>
+        obtain ⟨t, ht, htp⟩ := List.any_eq_true.mp hany
+        simp only [Bool.and_eq_true, beq_iff_eq] at htp
+        have : t = s := hinj syms hnames t ht s hs htp.2
+        rw [this, h1] at htp
+        exact absurd htp.1 (by decide)
+
+example : Regular ⟨nm "y", ["output"]⟩ ∧ isVar ⟨nm "y", ["output"]⟩ = true := by
+  refine ⟨⟨by decide, by decide, by decide⟩, by decide⟩
+
+/-- With proposed fix C24-4 the same holds without restricting the prefixes to the five class
+    prefixes: `discrete` (or any other) prefix no longer makes a variable disappear. -/
+theorem variables_match_with_fix (syms : List Sym) (hreg : ∀ s ∈ syms, WeakRegular s)
+    (hnames : (syms.map (·.name)).Nodup) (s : Sym) :
+    s ∈ (classifyFix syms).v ↔ s ∈ syms ∧ isVar s = true := by
+  have hnd : ∀ s ∈ syms, s.prefixes.Nodup := fun s hs => (hreg s hs).1
+  have hinj : ∀ (l : List Sym), (l.map (·.name)).Nodup → ∀ a ∈ l, ∀ b ∈ l, a.name = b.name → a = b := by
+    intro l
+    induction l with
+    | nil => intro _ a ha; simp at ha
+    | cons c l ih =>
+      intro hn a ha b hb hab
+      have hn' := List.nodup_cons.mp hn
+      rcases List.mem_cons.mp ha with ha1 | ha1
+      · rcases List.mem_cons.mp hb with hb1 | hb1
+        · rw [ha1, hb1]
+        · subst ha1
+          exact absurd (show a.name ∈ l.map (·.name) from List.mem_map.mpr ⟨b, hb1, hab.symm⟩) hn'.1
+      · rcases List.mem_cons.mp hb with hb1 | hb1
+        · subst hb1
+          exact absurd (show b.name ∈ l.map (·.name) from List.mem_map.mpr ⟨a, ha1, hab⟩) hn'.1
+        · exact ih hn'.2 a ha1 b hb1 hab
+  simp only [classifyFix, pick_eq_filter hnd, List.mem_append, List.mem_filter, List.any_filter,
+    Bool.not_eq_true']
+  constructor
+  · rintro (⟨hs, hcl⟩ | ⟨⟨hs, hout⟩, hnot⟩)
+    · refine ⟨hs, ?_⟩
+      simp only [Sym.classified, Bool.or_eq_false_iff] at hcl
+      simp [isVar, hcl.1.1.1.1, hcl.1.1.1.2, hcl.1.1.2, hcl.1.2]
+    · refine ⟨hs, ?_⟩
+      have hst : s.has "state" = false := by
+        cases hh : s.has "state" with
+        | false => rfl
+        | true =>
+          have : (syms.any fun t => t.has "state" && t.name == s.name) = true :=
+            List.any_eq_true.mpr ⟨s, hs, by simp [hh]⟩
+          rw [this] at hnot
+          exact absurd hnot (by decide)
+      have := (hreg s hs).2 hout
+      simp [isVar, hst, this.1, this.2.1, this.2.2]
+  · rintro ⟨hs, hv⟩
+    simp only [isVar, Bool.not_eq_true', Bool.or_eq_false_iff] at hv
+    obtain ⟨⟨⟨h1, h2⟩, h3⟩, h4⟩ := hv
+    cases hout : s.has "output" with
+    | false => left; exact ⟨hs, by simp [Sym.classified, h1, h2, h3, h4, hout]⟩
+    | true =>
+      right
+      refine ⟨⟨hs, rfl⟩, ?_⟩
+      cases hany : (syms.any fun t => t.has "state" && t.name == s.name) with
+      | false => rfl
+      | true =>
+        obtain ⟨t, ht, htp⟩ := List.any_eq_true.mp hany
+        simp only [Bool.and_eq_true, beq_iff_eq] at htp
+        have : t = s := hinj syms hnames t ht s hs htp.2
+        rw [this, h1] at htp
+        exact absurd htp.1 (by decide)
+
+example : WeakRegular ⟨nm "d", ["discrete"]⟩ ∧
+    (⟨nm "d", ["discrete"]⟩ : Sym) ∈ (classifyFix [⟨nm "d", ["discrete"]⟩, ⟨nm "p", ["parameter"]⟩]).v := by
+  refine ⟨⟨by decide, by decide⟩, by decide +kernel⟩
+
+/-- Outside the regular symbols the classification loses variables: a symbol whose only prefix is
+    `discrete` appears in no list at all. -/
+theorem discrete_symbol_in_no_list (n : Name) :
+    let L := classify [⟨n, ["discrete"]⟩]
+    L.x = [] ∧ L.v = [] ∧ L.c = [] ∧ L.p = [] ∧ L.u = [] ∧ L.y = [] := by
+  simp [classify, pick]
+
+end PymocaVerif.PyPrint
